@@ -35,7 +35,7 @@ def declare(spec):
         'stdout_stream': VAL, 'stderr_stream': VAL, 'env': VAL, 'working_dir': VAL, 'shell': VAL,
         'uid': VAL, 'gid': VAL, 'rlimits': VAL, 'executable': VAL, 'use_sockets': BOOL,
         'close_child_stdin': VAL, 'close_child_stdout': VAL, 'close_child_stderr': VAL,
-        '_found_wids': VAL, 'send_hup': VAL, 'prereload_fn': VAL,
+        '_found_wids': List(INT), 'send_hup': VAL, 'prereload_fn': VAL,
     })
     spec.Class('PubSocket', fields={'closed': BOOL})
     spec.Class('Arbiter', qual='circus.arbiter:Arbiter', fields={
